@@ -752,6 +752,16 @@ def refusal_cases(ctx):
         (k * a + b, a, None, "present"), (Eq(k * a, b), b, None, "present"), (a, a, None, "present alone"),
         (VectorCross(a, b) + c, c, None, "present next to a cross product"),
     ]
+    # malformed input: a vector expression in a denominator (bare, scaled, a sum, inside a product, under a power, a product of vectors)
+    W = "division by a vector expression"
+    table += [(b / a, b, E_TYPE, W), (c + b / a, c, E_TYPE, W), (c + b / (2 * a), c, E_TYPE, W), (c + b / (k * a), c, E_TYPE, W),
+        (Eq(k * c, b / (a - 3 * c)), c, E_TYPE, W), (c - b / (a + c), c, E_TYPE, W), (c + k / a, c, E_TYPE, W), (c + 1 / a, c, E_TYPE, W),
+        (c + b / (k * (a + b)), c, E_TYPE, W), (c + k * b * a**-1, c, E_TYPE, W), (Eq(c, b / (a + d) + d), c, E_TYPE, W),
+        (c + m * b / (2 * k * (a - d)), c, E_TYPE, W), (k * c - (b + d) / (3 * a), c, E_TYPE, W),
+        (c + b / a**2, c, E_TYPE, W + " (under a power)"), (c + k * b / (a + b)**2, c, E_TYPE, W + " (a sum under a power)"),
+        (c + b / VectorCross(a, b), c, E_TYPE, W + " (a cross product)"), (c + b / VectorCross(a, d + b), c, E_TYPE, W + " (a cross product)"),
+        # scalar denominators built from vectors are fine
+        (c + b / VectorNorm(a), c, None, "division by a norm"), (c + b / VectorDot(a, b), c, None, "division by a dot product")]
     n = 0
     for arg, unk, want, why in table:
         for red in (True, False):
@@ -768,7 +778,8 @@ def refusal_cases(ctx):
                 ctx.coverage.setdefault("refusal_class_differs", []).append(f"{arg} for {unk}: {msg}")
                 continue
             if got != want:
-                ctx.violation(f"C16:refusal:{arg}:{unk}:{red}", f"solve_for_vector({arg}, {unk}, reduce_factor={red}) [{why}]: outcome "
+                ctx.violation(f"C16:refusal:{why}" if why.startswith(W + " (") else f"C16:refusal:{arg}:{unk}" + ("" if W in why else f":{red}"),
+                    f"solve_for_vector({arg}, {unk}, reduce_factor={red}) [{why}]: outcome "
                     f"{msg or 'an equation'}, the model gives {'an equation' if want is None else ('TypeError' if want == E_TYPE else 'ValueError')}",
                     {"kind": "solve_for_vector-refusal", "argument": str(arg), "unknown": str(unk), "reduce": red, "observed": msg or "solved",
                      "expected_class": want, "theorem_or_tie": "refuses_non_vector / refuses_absent_vector / solves_present_vector"}, True)
